@@ -83,6 +83,9 @@ Definition S_none := Eval vm_compute in lit "none".
 Definition S_user := Eval vm_compute in lit "user".
 Definition S_fc_ := Eval vm_compute in lit "fc_".
 Definition S_output_ := Eval vm_compute in lit "output_".
+Definition S_assistant := Eval vm_compute in lit "assistant".
+Definition S_system := Eval vm_compute in lit "system".
+Definition S_developer := Eval vm_compute in lit "developer".
 
 (* ---------- ToolCallCollector (session.rs:496-683) ---------- *)
 Record call := { c_oi : N; c_id : str; c_item : option str; c_name : str; c_args : str }.
@@ -412,6 +415,32 @@ Definition outputs_for (stateless : bool) (xs : list xcall) : list item :=
 Definition out_ids (l : list item) : list str :=
   flat_map (fun i => match i with IOut _ cid _ => [cid] | _ => [] end) l.
 
+(* ---------- the value constraints the OpenResponses schema puts on the input items the loop builds ----------
+   (schemas/openresponses/split_components.json: FunctionCallItemParam, FunctionCallOutputItemParam, the four
+   *MessageItemParam with string content; strings are lists of Unicode code points, so nlen = maxLength's count).
+   T1: tools/gen/tool_loop.py reads the numbers, the pattern and the roles from the schema documents
+   (gen_schema_limits_ok); T2: the harness's schema judge must agree with `items_ok` on every follow-up body
+   (sent or refused) — `schema_agrees` below, part of check_case. *)
+Definition CALL_ID_MIN : N := 1.
+Definition CALL_ID_MAX : N := 64.
+Definition NAME_MIN : N := 1.
+Definition NAME_MAX : N := 64.
+Definition TEXT_MAX : N := 10485760.
+(* ^[a-zA-Z0-9_-]+$ *)
+Definition name_char_ok (c : N) : bool :=
+  ((48 <=? c) && (c <=? 57)) || ((65 <=? c) && (c <=? 90)) || ((97 <=? c) && (c <=? 122)) || (c =? 95) || (c =? 45).
+Definition call_id_ok (s : str) : bool := (CALL_ID_MIN <=? nlen s) && (nlen s <=? CALL_ID_MAX).
+Definition name_ok (s : str) : bool := (NAME_MIN <=? nlen s) && (nlen s <=? NAME_MAX) && forallb name_char_ok s.
+Definition role_ok (r : str) : bool :=
+  str_eqb r S_user || str_eqb r S_assistant || str_eqb r S_system || str_eqb r S_developer.
+Definition item_ok (i : item) : bool :=
+  match i with
+  | IMsg r t => role_ok r && (nlen t <=? TEXT_MAX)
+  | ICall _ cid n _ => call_id_ok cid && name_ok n
+  | IOut _ cid o => call_id_ok cid && (nlen o <=? TEXT_MAX)
+  end.
+Definition items_ok (q : request) : bool := forallb item_ok (items_of q).
+
 Fixpoint prefix_of {A} (eqb : A -> A -> bool) (a b : list A) : bool :=
   match a, b with
   | [], _ => true
@@ -490,4 +519,24 @@ Definition model_obs (c : case) : list N :=
   end.
 Definition case_obs (c : case) : list N :=
   match c with CCollect _ o => o | CEnforce _ _ o => o | CLoop _ _ _ _ _ _ o => o end.
-Definition check_case (c : case) : bool := lN_eqb (model_obs c) (case_obs c).
+(* every request the run built after the first one (sent, then the refused one): a follow-up differs from the
+   first request (which passed) only in its input items and previous_response_id, so it satisfies the schema
+   exactly when its items do; `valids` are the verdicts of the harness's schema judge on the same bodies *)
+Definition all_requests (r : result) : list request :=
+  sent r ++ match res_rejected r with Some q => [q] | None => [] end.
+Fixpoint agree_from (qs : list request) (vs : list bool) : bool :=
+  match qs, vs with
+  | [], _ => true
+  | _ :: _, [] => false
+  | q :: qs', v :: vs' => Bool.eqb (items_ok q) v && agree_from qs' vs'
+  end.
+Definition schema_agrees (r : result) (valids : list bool) : bool :=
+  agree_from (skipn 1 (all_requests r)) (skipn 1 valids).
+
+Definition check_case (c : case) : bool :=
+  match c with
+  | CLoop g prompt init script outs valids obs =>
+    let r := run g (valid_of valids) (tool_of outs) prompt init script in
+    lN_eqb (enc_result r) obs && schema_agrees r valids
+  | _ => lN_eqb (model_obs c) (case_obs c)
+  end.
